@@ -593,37 +593,75 @@ func (f *FeaturesByID) EachFeature(each func(f b6.Feature, goroutine int) error,
 }
 
 func (f *FeaturesByID) FindReferences(id b6.FeatureID, typed ...b6.FeatureType) b6.Features {
-	// TODO(mari): provide an implementation that handles collections etc
-	// when we move to a unified way of storing feature references in
-	// the compact index
+	// TODO(mari): handle collections when we move to a unified way of
+	// storing feature references in the compact index
 	features := make([]b6.Feature, 0)
-	if id.Type == b6.FeatureTypePoint && (len(typed) == 0 || slices.Contains(typed, b6.FeatureTypePath)) {
-		ids := f.findPathsByPoint(id, make([]b6.FeatureID, 0, 2))
-		paths := make([]b6.Feature, 0, len(ids))
-		for _, id := range ids {
-			if path, ok := f.FindFeatureByID(id).(b6.Feature); ok {
-				paths = append(paths, path)
-			}
-		}
-		i := b6.NewFeatureIterator(paths)
-
-		for i.Next() {
-			features = append(features, i.Feature())
-		}
-	}
-	if len(typed) == 0 || slices.Contains(typed, b6.FeatureTypeRelation) {
-		i := f.FindRelationsByFeature(id)
-		for i.Next() {
-			features = append(features, i.Feature())
-		}
-	}
-	if id.Type == b6.FeatureTypePoint && (len(typed) == 0 || slices.Contains(typed, b6.FeatureTypeArea)) {
-		i := f.FindAreasByPoint(id)
-		for i.Next() {
-			features = append(features, i.Feature())
+	for _, feature := range f.findReferrers(id) {
+		if len(typed) == 0 || slices.Contains(typed, feature.FeatureID().Type) {
+			features = append(features, feature)
 		}
 	}
 	return b6.NewFeatureIterator(features)
+}
+
+// findReferrers returns the features that refer to id, either directly, or
+// via other features that refer to it (eg the relations of the paths through
+// a point), as the references index of the in-memory world does.
+func (f *FeaturesByID) findReferrers(id b6.FeatureID) []b6.Feature {
+	found := make([]b6.Feature, 0, 2)
+	seen := make(map[b6.FeatureID]struct{})
+	queue := []b6.FeatureID{id}
+	for len(queue) > 0 {
+		next := queue[0]
+		queue = queue[1:]
+		direct := make([]b6.Feature, 0, 2)
+		switch next.Type {
+		case b6.FeatureTypePoint:
+			for _, pid := range f.findPathsByPoint(next, make([]b6.FeatureID, 0, 2)) {
+				if path := f.FindFeatureByID(pid); path != nil {
+					direct = append(direct, path)
+				}
+			}
+		case b6.FeatureTypePath:
+			direct = f.fillAreasFromPath(next, direct)
+		}
+		relations := f.findDirectRelations(next)
+		for relations.Next() {
+			direct = append(direct, relations.Feature())
+		}
+		for _, feature := range direct {
+			if _, ok := seen[feature.FeatureID()]; !ok {
+				seen[feature.FeatureID()] = struct{}{}
+				found = append(found, feature)
+				queue = append(queue, feature.FeatureID())
+			}
+		}
+	}
+	return found
+}
+
+// fillAreasFromPath appends the areas bounded by the path with the given id.
+func (f *FeaturesByID) fillAreasFromPath(id b6.FeatureID, areas []b6.Feature) []b6.Feature {
+	for _, pm := range f.features[b6.FeatureTypePath] {
+		if ns, ok := pm.NamespaceTable.MaybeEncode(id.Namespace); ok && ns == pm.Namespaces[b6.FeatureTypePath] {
+			if b := pm.Map.FindFirstWithTag(id.Value, encoding.NoTag); len(b) > 0 {
+				var p Path
+				p.Unmarshal(&pm.Namespaces, b)
+				for _, area := range p.Areas {
+					_, ns := area.TypeAndNamespace.Split()
+					for _, am := range f.features[b6.FeatureTypeArea] {
+						if sameNamespace(pm, ns, am, b6.FeatureTypeArea) {
+							if a := f.newArea(am, area.Value); a != nil {
+								areas = append(areas, a)
+								break
+							}
+						}
+					}
+				}
+			}
+		}
+	}
+	return areas
 }
 
 func (f *FeaturesByID) findPathsByPoint(id b6.FeatureID, paths []b6.FeatureID) []b6.FeatureID {
@@ -850,6 +888,18 @@ func (f *FeaturesByID) countPaths(from *featureBlock, refs References) int {
 
 func (f *FeaturesByID) FindRelationsByFeature(id b6.FeatureID) b6.RelationFeatures {
 	relations := make([]b6.RelationFeature, 0, 2)
+	for _, feature := range f.findReferrers(id) {
+		if relation, ok := feature.(b6.RelationFeature); ok && feature.FeatureID().Type == b6.FeatureTypeRelation {
+			relations = append(relations, relation)
+		}
+	}
+	return ingest.NewRelationFeatureIterator(relations)
+}
+
+// findDirectRelations returns the relations that have the feature with the
+// given id as a member, from the record of the feature itself.
+func (f *FeaturesByID) findDirectRelations(id b6.FeatureID) b6.RelationFeatures {
+	relations := make([]b6.RelationFeature, 0, 2)
 	if int(id.Type) >= len(f.features) {
 		return ingest.NewRelationFeatureIterator(relations)
 	}
@@ -889,10 +939,16 @@ func (f *FeaturesByID) appendRelation(from *featureBlock, r Reference, relations
 
 func (f *FeaturesByID) fillRelationsFromPoint(fb *featureBlock, id uint64, relations []b6.RelationFeature) []b6.RelationFeature {
 	t, ok := fb.Map.FindFirst(id)
-	if ok && t.Tag == PointTagFull {
+	if ok && t.Tag != PointTagCommon {
+		// A point that's missing from the index still records the
+		// relations it's a member of
 		var p FullPoint
-		// TODO: don't need to unmarshal everything
-		p.Unmarshal(&fb.Namespaces, t.Data)
+		if t.Tag == PointTagFull {
+			// TODO: don't need to unmarshal everything
+			p.Unmarshal(&fb.Namespaces, t.Data)
+		} else {
+			p.PointReferences.Unmarshal(&fb.Namespaces, t.Data)
+		}
 		for i, r := range p.Relations {
 			if slices.Contains(p.Relations[0:i], r) {
 				// A relation that lists the point as a member more than once
